@@ -5,7 +5,7 @@ package forwarder
 
 // C13: every request the proxy reads is reported complete exactly once, with the status the client was sent.
 //
-//vf:assume C13-trace: two (quick) / three (thorough) exchanges on one connection through the real connection loop, each one of: forwarded GET, GET refused by authentication (407), GET whose round trip fails, HEAD, CONNECT tunnel that runs to completion, CONNECT whose dial fails; optionally the client socket fails for writes after k bytes; the completion hooks (ProxyTrace) are ghost counters
+//vf:assume C13-trace: two (quick) / three (thorough) exchanges on one connection through the real connection loop, each one of: forwarded GET, GET refused by authentication (407), GET whose round trip fails, GET answered 426 with Upgrade fields, HEAD, CONNECT tunnel that runs to completion, CONNECT whose dial fails; optionally the client socket fails for writes after k bytes; the completion hooks (ProxyTrace) are ghost counters
 //vf:assume C13-trace: one schedule per tunnel (directions one after the other); concurrent closes are covered by the conntrack harness only sequentially (sync.Once is trusted)
 
 import (
@@ -32,7 +32,10 @@ type vfExchange struct {
 
 func vfExchangeKind(i int) vfExchange {
 	const auth = "Proxy-Authorization: Basic dTpwdw==\r\n"
-	switch vfrt.Choice("exchange", 6) {
+	switch vfrt.Choice("exchange", 7) {
+	case 6:
+		// the origin refuses an upgrade: an ordinary (non-101) response that carries Upgrade fields
+		return vfExchange{method: "GET", text: "GET http://example.com/upgrade-required HTTP/1.1\r\nHost: example.com\r\n" + auth + "\r\n"}
 	case 0:
 		return vfExchange{method: "GET", text: "GET http://example.com/ok HTTP/1.1\r\nHost: example.com\r\n" + auth + "\r\n"}
 	case 1:
@@ -58,6 +61,9 @@ func vfH_C13_trace() {
 	rt.respond = func(req *http.Request, n int) (*http.Response, error) {
 		if req.URL.Path == "/fail" {
 			return nil, &net.OpError{Op: "read", Net: "tcp", Err: io.ErrUnexpectedEOF}
+		}
+		if req.URL.Path == "/upgrade-required" {
+			return &http.Response{StatusCode: 426, ProtoMajor: 1, ProtoMinor: 1, Header: http.Header{"Connection": {"Upgrade"}, "Upgrade": {"TLS/1.3"}}, Body: io.NopCloser(bytes.NewReader([]byte("up"))), ContentLength: 2, Request: req}, nil
 		}
 		body := io.NopCloser(bytes.NewReader([]byte("ok")))
 		if req.Method == "HEAD" {
